@@ -2,6 +2,7 @@ import RimuProofs.Lemmas.Run
 import RimuProofs.Props.C12
 import RimuProofs.Props.C09
 import RimuProofs.Facts
+import RimuProofs.Lemmas.RelBlock
 
 /-!
 # C08  Blocks render independently, in order, each to its own element
@@ -99,6 +100,50 @@ theorem header_level_is_marker_length :
         | .ok (html, _) => html == "<h".toList ++ natToStr (k + 1) ++ ">T x</h".toList ++ natToStr (k + 1) ++ ">".toList
         | .error _ => false) = true := by
   decide +kernel
+
+/-- **Blocks are rendered in order and independently of the output so far.**  Rendering the rest of a document from
+    a writer that already holds some output is the same as rendering it from an empty writer and putting the earlier output
+    in front: same exception or same final session, and the new writer is the old one extended.  So nothing that has been
+    written is ever read back or rewritten, and the html of a block cannot depend on the html of the blocks before it (only
+    on the session they leave).  Holds for every line block, delimited block, list and nested container (`Rel`, the two
+    programs walked in lockstep by `rel_go`; `Lemmas/Rel*.lean`). -/
+theorem earlier_output_is_never_read_or_rewritten (rec : Rec) (env : Env) (fuel : Nat) (r : Reader) (w : Writer) (s : Session) :
+    (documentLoop rec env fuel r w).run s =
+      ((fun w2 => w.extend w2) <$> documentLoop rec env fuel r {}).run s := by
+  have h := documentLoop_rel rec env w fuel r w {} (WR.start w) s
+  rw [show ((fun w2 => w.extend w2) <$> documentLoop rec env fuel r {}) =
+        (documentLoop rec env fuel r {} >>= fun w2 => pure (w.extend w2)) from (bind_pure_comp _ _).symm, run_bind]
+  cases h1 : (documentLoop rec env fuel r w).run s with
+  | error e =>
+    cases h2 : (documentLoop rec env fuel r {}).run s with
+    | error e' => rw [h1, h2] at h; simp only at h; rw [h]
+    | ok x => rw [h1, h2] at h; exact h.elim
+  | ok x =>
+    obtain ⟨w1, s1⟩ := x
+    cases h2 : (documentLoop rec env fuel r {}).run s with
+    | error e' => rw [h1, h2] at h; exact h.elim
+    | ok y =>
+      obtain ⟨w2, s2⟩ := y
+      rw [h1, h2] at h
+      obtain ⟨hw, rfl⟩ := h
+      have : w1 = w.extend w2 := by
+        cases w1; cases w2; cases w
+        simp only [WR, Writer.extend] at hw ⊢
+        rw [hw]
+      rw [this]
+      rfl
+
+/-- ... in terms of the html: the text rendered so far is a prefix of the final text. -/
+theorem output_so_far_is_a_prefix (rec : Rec) (env : Env) (fuel : Nat) (r : Reader) (w w' : Writer) (s s' : Session)
+    (h : (documentLoop rec env fuel r w).run s = .ok (w', s')) : ∃ rest, w'.toStr = w.toStr ++ rest := by
+  have h0 := documentLoop_rel rec env w fuel r w {} (WR.start w) s
+  rw [h] at h0
+  cases h2 : (documentLoop rec env fuel r {}).run s with
+  | error e' => rw [h2] at h0; exact h0.elim
+  | ok y =>
+    obtain ⟨w2, s2⟩ := y
+    rw [h2] at h0
+    exact ⟨w2.toStr, WR.toStr h0.1⟩
 
 /-- Concrete document of all block kinds (kernel evaluation): rendered in order, each to its element, nested
     containers around their content. -/
